@@ -7,6 +7,7 @@ import (
 	"io"
 	"net/http"
 	"net/url"
+	"sync"
 
 	"github.com/ipfs/go-cid"
 	"github.com/ipni/go-libipni/announce/message"
@@ -15,6 +16,7 @@ import (
 )
 
 type c10rt struct {
+	mu     sync.Mutex // (the sender contacts several indexers concurrently)
 	bodies map[string][]byte
 	ctypes map[string]string
 	status int
@@ -22,6 +24,8 @@ type c10rt struct {
 
 func (r *c10rt) RoundTrip(req *http.Request) (*http.Response, error) {
 	b, _ := io.ReadAll(req.Body)
+	r.mu.Lock()
+	defer r.mu.Unlock()
 	r.bodies[req.URL.Host] = b
 	if r.ctypes != nil {
 		r.ctypes[req.URL.Host] = req.Header.Get("Content-Type")
